@@ -589,6 +589,8 @@ func (l *Locks) flow(f *ssa.Function) {
 							l.Issues = append(l.Issues, PairIssue{f, ins, op.Class, "released but not held on every path to this point"})
 						} else if m != op.Mode {
 							l.Issues = append(l.Issues, PairIssue{f, ins, op.Class, fmt.Sprintf("released in mode %c but held in mode %c", op.Mode, m)})
+						} else if _, inherited := entry[op.Class]; inherited && l.Must {
+							l.Issues = append(l.Issues, PairIssue{f, ins, op.Class, "hand-off: releases a lock that every caller holds across this call (the caller's critical section is split in two: what it established before the call can change before the call returns, and others can act on state the caller is in the middle of updating)"})
 						}
 					}
 				}
